@@ -62,7 +62,7 @@ class C08(ScanCheck):
                             ecdh, commit, yy = self.encode(enc, a, y, h)
                             self.add_open(cases, head, enc, ecdh, commit, h, "open:sender " + ("legacy" if enc == 1 else "compact"),
                                           sender=(a, yy))
-                            if first or (not q and rng.random() < 0.1):
+                            if first or (not q and rng.random() < 0.03):
                                 # corruptions, once per (wallet, key) in quick
                                 for f in flips(rng, len(ecdh), not q):
                                     self.add_open(cases, head, enc, sc.xor_bytes(ecdh, f), commit, h, "open:ecdh-corrupted")
